@@ -12,6 +12,7 @@ import TonVerif.Proofs.SrcArith
 import TonVerif.Generated.Capacity
 import TonVerif.Proofs.SrcTyped
 import TonVerif.Proofs.SrcSnake
+import TonVerif.Proofs.SrcForms
 
 namespace TonVerif.Properties.C07
 open TonVerif TonVerif.Model TonVerif.Spec.Tlb TonVerif.Proofs.Builder TonVerif.Proofs.Slice
@@ -348,5 +349,70 @@ example : guardCap (fun _ (_ : List Nat) => some 0) (List.replicate 1024 false) 
   refine ⟨by decide +kernel, by decide +kernel, by decide +kernel, ⟨by decide +kernel, by decide +kernel⟩, by decide +kernel⟩
 
 end SrcSnake
+
+/-! ## Source-regenerated argument forms (`Generated/ArgForms.lean`) -/
+section SrcForms
+open TonVerif.Proofs.SrcBuilder TonVerif.Proofs.SrcForms TonVerif.Generated.ArgForms
+
+/-- NO argument form of `store_bit` / `store_bits` / `store_address` bypasses the capacity test: for every argument of every form
+(bool, text, TvmBitarray, plain bitarray, list / tuple of ints, iterator; a textual address with any `Address(text)` parser) the
+regenerated method maps a builder within 1023 bits / 4 refs to a builder within 1023 bits / 4 refs, whether it returns or raises. -/
+theorem c07_src_forms_capacity (addrOfStr : Bytes → Option Py.AddrV) (v : Bool) (s : Bytes) (x : Bits) (xs : List Int)
+    (b : Builder R) (hb : Proofs.Builder.Inv b) :
+    ∀ f ∈ [store_bit_bool v, store_bit_str s, store_bit_bits x, store_bit_bitarray x, store_bit_ints xs, store_bits_str s,
+           store_bits_ints xs, store_bits_bitarray x, store_bits_iter (), store_address_str addrOfStr s],
+      Proofs.Builder.Inv (f b).1 := by
+  have hext : ∀ bs : Bits, Proofs.Builder.Inv (BOp.extend bs b).1 := fun bs => safe_extend bs b hb
+  intro f hf
+  simp only [List.mem_cons, List.mem_nil_iff, or_false] at hf
+  rcases hf with rfl | rfl | rfl | rfl | rfl | rfl | rfl | rfl | rfl | rfl
+  · rw [src_store_bit_bool_eq, ofFlag_fst]; exact hext _
+  · rw [src_store_bit_str_eq]
+    cases Py.intOfStr? s with
+    | none => exact hb
+    | some i => by_cases hi : i = 0 ∨ i = 1
+                · simp only [hi, if_true, ofFlag_fst]; exact hext _
+                · simp only [hi, if_false]; exact hb
+  · rw [src_store_bit_tvm_eq, ofFlag_fst]; exact hext _
+  · exact hb
+  · exact hb
+  · rw [src_store_bits_str_eq]
+    by_cases h : b.bits.length + Py.strLen s > 1023
+    · rw [if_pos h]; exact hb
+    · rw [if_neg h]
+      cases hs : Py.bitsOfStr? s with
+      | none => exact hb
+      | some bs =>
+        have := bitsOfStr_len s bs hs
+        exact ⟨by simp only [List.length_append]; omega, hb.2⟩
+  · rw [src_store_bits_ints_eq]
+    by_cases h : b.bits.length + xs.length > 1023
+    · rw [if_pos h]; exact hb
+    · rw [if_neg h]
+      cases hs : Py.bitsOfInts? xs with
+      | none => exact hb
+      | some bs =>
+        have := bitsOfInts_len xs bs hs
+        exact ⟨by simp only [List.length_append]; omega, hb.2⟩
+  · rw [src_store_bits_bitarray_eq, ofFlag_fst]; exact hext _
+  · exact hb
+  · rw [src_store_address_str_eq]
+    cases addrOfStr s with
+    | none => exact hb
+    | some a =>
+      simp only
+      rw [src_store_address_std_eq, ofFlag_fst]
+      exact safe_run (.val (.addr (addrOf a))) b hb
+
+/-- the hypothesis is met at the boundary and both outcomes occur: at 1023 bits every storing form is refused and the builder
+stays at 1023 bits; at 1022 bits `store_bit(True)` is accepted. -/
+example : let b : Builder Nat := ⟨List.replicate 1023 false, []⟩
+    Proofs.Builder.Inv b ∧ (store_bit_bool true b).2 = none ∧ (store_bits_str [49] b).2 = none ∧ (store_bits_ints [1] b).2 = none ∧
+    (store_bit_bits [true] b).2 = none ∧ (store_bits_str [49] b).1.bits.length = 1023 ∧
+    (store_bit_bool true (⟨List.replicate 1022 false, []⟩ : Builder Nat)).2 = some () := by
+  refine ⟨⟨by decide +kernel, by decide⟩, by decide +kernel, by decide +kernel, by decide +kernel, by decide +kernel,
+    by decide +kernel, by decide +kernel⟩
+
+end SrcForms
 
 end TonVerif.Properties.C07
